@@ -163,6 +163,7 @@ let () =
       Printf.printf "%s L %s\n" id (show_list (filter_referrers (parse_list s) (n_of_int (int_of_string a))))
     | id :: "M" :: n :: evs -> Printf.printf "%s %s\n" id (run_m (int_of_string n) evs)
     | id :: "X" :: sg :: init0 :: cs :: evs ->
+      let evs = List.filter (fun e -> e.[0] <> 'J') evs in   (* J<hex>: the replay of the end-to-end case *)
       Printf.printf "%s %s\n" id (run_x (sg = "1") init0 (parse_changes cs) evs)
     | [id; "K"; bits] ->
       let bs = List.init (String.length bits) (fun i -> bits.[i] = '1') in
